@@ -51,7 +51,10 @@
       per-partition answer for a set that holds nothing of `p`, while no message of `p` is held: the actions are
       `ForeignActs p`, the set is removed, closing / the retry mark of `p` / the buffered messages of `p` are unchanged,
       the held message stays foreign; no worker invariant needed) and `projB_hidden_parts` (so `projB p` is unchanged
-      up to `sets` and `stale`).  NOT yet lifted to the system step (`proj_deliver_hidden_p`), and the VISIBLE case
+      up to `sets` and `stale`).  Props/C02multiD2.lean lifts it to the system step: `proj_deliver_hidden_parts_p` (set
+      without messages of `p`, the one-partition worker has no set, no message of `p` held, per-partition answer:
+      `deliver` is NO step, `WRel (BRp p)` kept; no example instance of it yet).  NOT covered: `BRp` does not say that
+      a VISIBLE set holds something of `p` (needed to discharge `(s.wk w).bp.sets = []` from `delOK`); the VISIBLE case
       (own part of the two passes, offsets from the base of `p`, the request-level error) is not started.
   EXACTLY ONE single-step statement is open: `DeliverProj` (Props/C02multiZ.lean).  It needs the projection of
   `BrokerProd.resp` on one partition with several partitions in the set (the two passes of handleSuccess - for which
